@@ -5,11 +5,16 @@ go 1.23.3
 require github.com/BondMachineHQ/BondMachine v0.0.0
 
 require (
+	github.com/llir/ll v0.0.0-20220802044011-65001c0fb73c // indirect
+	github.com/llir/llvm v0.3.6 // indirect
 	github.com/mdlayher/packet v0.0.0-20220221164757-67998ac0ff93 // indirect
 	github.com/mdlayher/raw v0.1.0 // indirect
 	github.com/mdlayher/socket v0.2.1 // indirect
+	github.com/mewmew/float v0.0.0-20201204173432-505706aa38fa // indirect
 	github.com/mmirko/mel v0.0.0-20250221224538-07744443e851 // indirect
+	github.com/pkg/errors v0.9.1 // indirect
 	github.com/x448/float16 v0.8.4 // indirect
+	golang.org/x/exp v0.0.0-20250408133849-7e4ce0ab07d0 // indirect
 	golang.org/x/net v0.39.0 // indirect
 	golang.org/x/sync v0.13.0 // indirect
 	golang.org/x/sys v0.32.0 // indirect
